@@ -192,6 +192,19 @@ func c04R1(c *kit.Ctx, m *storeModel, r1 *kit.Rule) {
 				return []kit.S{s.Set("tx", "done")}
 			}
 			if s.Get("tx") != "begun" {
+				// a statement of a transaction function executed before Begin or
+				// after Commit/Rollback: what it reads is not the snapshot the
+				// transaction writes against, what it writes is not atomic with it
+				if site := m.siteOf(call); site != nil && len(site.Stmts) > 0 {
+					if v := verdict[call]; v == nil {
+						verdict[call] = &struct {
+							key string
+							ok  bool
+							fn  *kit.Func
+						}{siteKey(site) + " (outside the transaction)", false, f}
+						order = append(order, call)
+					}
+				}
 				return nil
 			}
 			record(f, call)
@@ -634,6 +647,85 @@ func c04R6(c *kit.Ctx, m *storeModel, r6 *kit.Rule) {
 		}
 		if found == 0 {
 			r6.Ob(nil, nil, tg.name, "initialiser exists").Undecided("no call site of the %s found", tg.name)
+		}
+	}
+	// liveness: each initialiser is guarded by its OWN emptiness condition only.  A
+	// crash between two initialisation steps leaves a store where one piece is present
+	// and another is missing; the next start must still create the missing one.
+	type live struct {
+		name    string
+		hit     func(f *kit.Func, call *ast.CallExpr) bool
+		rootSet bool
+		keyLen  int64
+	}
+	for _, lv := range []live{
+		{"root initialiser", isRootInit, false, 20},
+		{"signing-key initialiser", isKeyInit, true, 0},
+	} {
+		for _, f := range c.P.Funcs("store") {
+			if f.Body == nil || f.Lit != nil {
+				continue
+			}
+			var sites []*ast.CallExpr
+			wipes := false
+			for _, call := range f.AllCalls(false) {
+				if lv.hit(f, call) {
+					sites = append(sites, call)
+				}
+				if s := m.siteOf(call); s != nil && s.HasVerb("DELETE", "") {
+					wipes = true
+				}
+			}
+			if len(sites) == 0 || wipes {
+				continue
+			}
+			info := f.Info()
+			st := &kit.Std{F: f}
+			subst := func(x ast.Expr) (constant.Value, bool) {
+				x = ast.Unparen(x)
+				if sel, ok := x.(*ast.SelectorExpr); ok && kit.ObjOf(info, sel) == types.Object(m.rootField) {
+					if lv.rootSet {
+						return constant.MakeString("some-root-id"), true
+					}
+					return constant.MakeString(""), true
+				}
+				if call, ok := x.(*ast.CallExpr); ok && len(call.Args) == 1 {
+					if b, ok := kit.Callee(info, call).(*types.Builtin); ok && b.Name() == "len" {
+						if sel, ok := ast.Unparen(call.Args[0]).(*ast.SelectorExpr); ok && kit.ObjOf(info, sel) == types.Object(keyField) {
+							return constant.MakeInt64(lv.keyLen), true
+						}
+					}
+				}
+				return nil, false
+			}
+			st.Fold = func(e ast.Expr, s kit.S) (bool, bool) { return foldSubst(info, e, subst) }
+			st.OnCall = func(call *ast.CallExpr, n ast.Node, s kit.S) []kit.S {
+				if lv.hit(f, call) {
+					return []kit.S{s.Set("init", "1")}
+				}
+				return nil
+			}
+			res := c.P.Graph(f).Run(kit.NewS(), st.Client())
+			if res.Overflow {
+				c.Fatalf("R6 liveness: overflow in %s", f.Name)
+			}
+			c.AddValuations(1)
+			what := map[bool]string{true: "the root exists but the signing key is missing", false: "the signing key exists but the root is missing"}[lv.rootSet]
+			o := r6.Ob(f, sites[0], lv.name+" runs when needed", "when "+what+" (crash during first start), every successful start still runs the "+lv.name)
+			missed := false
+			for _, e := range res.Exits {
+				if e.Return == nil || st.ReturnsNil(e.Return, e.State) == "nonnil" {
+					continue
+				}
+				if e.State.Get("init") != "1" {
+					missed = true
+				}
+			}
+			if missed {
+				o.Violation("when %s, %s can return successfully without running the %s: the condition guarding it depends on something else than its own missing piece, so a crash between the initialisation steps is never repaired", what, f.Name, lv.name)
+			} else {
+				o.OK("reached on every successful path of %s under that scenario", f.Name)
+			}
 		}
 	}
 }
